@@ -948,6 +948,23 @@ def glue_greenback() -> None:
                 "frame"
             )
 
+    if hasattr(greenback._impl, "_greenback_shim_sync"):  # pragma: no branch
+
+        @elaborate_frame.register(greenback._impl._greenback_shim_sync)
+        def elaborate_greenback_shim_sync(frame: Frame, next_inner: object) -> object:
+            # The shim behind with_portal_run_sync(): it runs a synchronous
+            # function in a child greenlet, like _greenback_shim does for
+            # a coroutine.
+            frame.hide = True
+            if isinstance(next_inner, Frame):
+                return None
+            child_greenlet = frame.pyframe.f_locals.get("child_greenlet")
+            if getattr(child_greenlet, "gr_frame", None) is not None:
+                # The sync function is suspended in an await_();
+                # continue tracing into it via the greenlet stack
+                return child_greenlet
+            return None
+
     @elaborate_frame.register(greenback.await_)
     def elaborate_greenback_await(frame: Frame, next_inner: object) -> object:
         frame.hide = True
